@@ -1,7 +1,8 @@
-(* C07 - property theorems only (statements over the model in C07_Model; the
+(* C07 - property theorems only (statements over the model in C07_Model / C07_Files; the
    libraries are universally quantified functions constrained by the contracts
-   pload_contract / vload_contract of C07_Proofs). *)
-From HV Require Import Prelude C07_Model C07_Check C07_Proofs.
+   paccept_complete / paccept_sound / pload_contract / vload_contract / hts_iter_contract /
+   hts_region_contract of C07_Proofs). *)
+From HV Require Import Prelude BpText C07_Text C07_Files C07_Model C07_Check C07_ProofsText C07_Proofs.
 
 (* the chunk loop "for start in range(0, len(l), c): l[start:start+c]" visits
    every element exactly once, in order, for every list and every c >= 1 *)
@@ -11,19 +12,21 @@ Proof. exact (@chunks_concat). Qed.
 Print Assumptions C07_chunks_concat.
 
 (* core: what is written and then read does not depend on the chunk sizes:
-   for every matrix (any p, p = 0 included), every library behaviour, every write
-   chunk and read chunk >= 1 or None, the result is the chunk-free closed form *)
+   for every matrix (any shape, 0 samples or 0 variants included; legal calls or not), every
+   pgenlib that accepts exactly the batches meeting its precondition, every write chunk and
+   read chunk >= 1 or None, the result is the chunk-free closed form *)
 Theorem C07_chunking_irrelevant :
-  forall (pload : scall -> scall) (g : geno) (cw cr : option Z),
-  chunk_dom cw -> chunk_dom cr ->
-  pgen_roundtrip_model pload false cw cr g = pgen_rt_closed pload g.
+  forall (paccept : Z -> batch -> bool) (pload : scall -> scall) (g : geno) (cw cr : option Z),
+  paccept_complete paccept -> paccept_sound paccept -> chunk_dom cw -> chunk_dom cr ->
+  pgen_roundtrip_model paccept pload false cw cr g = pgen_rt_closed pload g.
 Proof. exact chunking_irrelevant. Qed.
 Print Assumptions C07_chunking_irrelevant.
 
 Theorem C07_chunking_irrelevant_pairwise :
-  forall (pload : scall -> scall) (g : geno) (cw cr cw' cr' : option Z),
+  forall (paccept : Z -> batch -> bool) (pload : scall -> scall) (g : geno) (cw cr cw' cr' : option Z),
+  paccept_complete paccept -> paccept_sound paccept ->
   chunk_dom cw -> chunk_dom cr -> chunk_dom cw' -> chunk_dom cr' ->
-  pgen_roundtrip_model pload false cw cr g = pgen_roundtrip_model pload false cw' cr' g.
+  pgen_roundtrip_model paccept pload false cw cr g = pgen_roundtrip_model paccept pload false cw' cr' g.
 Proof. exact chunking_irrelevant2. Qed.
 Print Assumptions C07_chunking_irrelevant_pairwise.
 
@@ -45,12 +48,13 @@ Proof. exact load_chunks_irrelevant. Qed.
 Print Assumptions C07_read_chunking_irrelevant.
 
 (* core: writer precondition.  For every matrix of the property's domain the
-   fixed writer is accepted by pgenlib: every batch declares allele counts within
-   allele_ct_limit and every code is below its variant's count *)
+   fixed writer is accepted by every pgenlib that accepts what meets its precondition:
+   every batch declares allele counts within allele_ct_limit and every code is below its
+   variant's count *)
 Theorem C07_pgen_allele_ct_ok :
-  forall (g : geno) (cw : option Z),
-  geno_domb false g = true -> chunk_dom cw ->
-  exists pf, pgen_write false cw g = Ok pf
+  forall (paccept : Z -> batch -> bool) (g : geno) (cw : option Z),
+  paccept_complete paccept -> geno_domb false g = true -> chunk_dom cw ->
+  exists pf, pgen_write paccept false cw g = Ok pf
     /\ forallb (batch_ok (pf_limit pf)) (pf_batches pf) = true
     /\ pf_samples pf = g_samples g.
 Proof. exact pgen_allele_ct_ok. Qed.
@@ -58,82 +62,272 @@ Print Assumptions C07_pgen_allele_ct_ok.
 
 Theorem C07_legacy_allele_cts_refuted_missing :
   geno_domb false g_missing_biallelic = true
-  /\ pgen_write true None g_missing_biallelic = Err E_Runtime
-  /\ exists pf, pgen_write false None g_missing_biallelic = Ok pf.
+  /\ pgen_write paccept_std true None g_missing_biallelic = Err E_Runtime
+  /\ exists pf, pgen_write paccept_std false None g_missing_biallelic = Ok pf.
 Proof. exact legacy_allele_cts_refuted_missing. Qed.
 Print Assumptions C07_legacy_allele_cts_refuted_missing.
 
 Theorem C07_legacy_allele_cts_refuted_gap :
   geno_domb false g_unobserved_allele = true
-  /\ pgen_write true None g_unobserved_allele = Err E_Runtime
-  /\ exists pf, pgen_write false None g_unobserved_allele = Ok pf.
+  /\ pgen_write paccept_std true None g_unobserved_allele = Err E_Runtime
+  /\ exists pf, pgen_write paccept_std false None g_unobserved_allele = Ok pf.
 Proof. exact legacy_allele_cts_refuted_gap. Qed.
 Print Assumptions C07_legacy_allele_cts_refuted_gap.
 
-(* extended: PGEN round trip, for every pgenlib meeting the contract *)
+(* extended: PGEN round trip, for every pgenlib meeting the contracts (only the "complete"
+   clause of the acceptance rule is needed) *)
 Theorem C07_pgen_roundtrip :
-  forall (pload : scall -> scall) (g : geno) (cw cr : option Z),
-  pload_contract pload -> geno_domb false g = true -> chunk_dom cw -> chunk_dom cr ->
-  exists g', pgen_roundtrip_model pload false cw cr g = Ok g' /\ rt_rel g g'.
+  forall (paccept : Z -> batch -> bool) (pload : scall -> scall) (g : geno) (cw cr : option Z),
+  paccept_complete paccept -> pload_contract pload ->
+  geno_domb false g = true -> chunk_dom cw -> chunk_dom cr ->
+  exists g', pgen_roundtrip_model paccept pload false cw cr g = Ok g' /\ rt_rel g g'.
 Proof. exact pgen_roundtrip. Qed.
 Print Assumptions C07_pgen_roundtrip.
 
-(* extended: VCF/BCF round trip, for every pysam/cyvcf2 meeting the contract,
-   with or without an index *)
+(* a call missing in one allele only cannot be handed to pgenlib: for every pgenlib that
+   rejects what violates its precondition the write fails (RuntimeError), whatever the chunk
+   size - PGEN is outside the round-trip demand for such matrices *)
+Theorem C07_pgen_half_missing_refused :
+  forall (paccept : Z -> batch -> bool) (g : geno) (cw : option Z),
+  paccept_sound paccept -> geno_domb0 true g = true -> has_half g = true ->
+  g_samples g <> [] -> chunk_dom cw ->
+  pgen_write paccept false cw g = Err E_Runtime.
+Proof. exact pgen_half_missing_refused. Qed.
+Print Assumptions C07_pgen_half_missing_refused.
+
+(* extended: VCF/BCF round trip, for every pysam/cyvcf2/htslib meeting the contracts,
+   every format, with or without an index *)
 Theorem C07_vcf_roundtrip :
-  forall (vload : vcall -> Z * Z * Z) (g : geno) (indexed : bool),
-  vload_contract vload -> geno_domb true g = true -> 1 <= lenZ (g_variants g) ->
-  vcf_roundtrip_model vload false indexed g
-  = mkg (g_samples g) (g_variants g) (map (map (norm_call (planes g))) (g_rows g))
-        [lenZ (g_samples g); lenZ (g_variants g); 3]
-  /\ rt_rel g (vcf_roundtrip_model vload false indexed g).
+  forall (vload : vcall -> Z * Z * Z) (hts : htslib) (g : geno) (fmt : vfmt) (idx : vidx),
+  vload_contract vload -> hts_iter_contract hts ->
+  geno_domb true g = true -> 1 <= lenZ (g_variants g) ->
+  vcf_roundtrip_model vload hts false false fmt idx g
+  = Ok (mkg (g_samples g) (g_variants g) (map (map (norm_call (planes g))) (g_rows g))
+            [lenZ (g_samples g); lenZ (g_variants g); 3])
+  /\ exists g', vcf_roundtrip_model vload hts false false fmt idx g = Ok g' /\ rt_rel g g'.
 Proof. exact vcf_roundtrip. Qed.
 Print Assumptions C07_vcf_roundtrip.
 
-Theorem C07_empty_roundtrip :
-  forall (pload : scall -> scall) (vload : vcall -> Z * Z * Z) (samples : list Z) (k : Z)
-         (cw cr : option Z) (legacy indexed : bool),
-  let g := mkg samples [] [] [lenZ samples; 0; k] in
-  pgen_roundtrip_model pload legacy cw cr g = Ok (mkg samples [] [] [lenZ samples; 0; 3])
-  /\ vcf_roundtrip_model vload legacy indexed g = mkg samples [] [] [0; 0; 0].
-Proof. exact empty_roundtrip. Qed.
-Print Assumptions C07_empty_roundtrip.
+(* "for VCF it does not depend on compression or on the presence of an index when no
+   region is requested": for every matrix whatsoever and every htslib whose plain
+   iteration needs no index *)
+Theorem C07_vcf_format_index_irrelevant :
+  forall (vload : vcall -> Z * Z * Z) (hts : htslib) (legacy0 : bool) (g : geno)
+         (fmt : vfmt) (idx : vidx) (fmt' : vfmt) (idx' : vidx),
+  hts_iter_contract hts ->
+  vcf_roundtrip_model vload hts false legacy0 fmt idx g = vcf_roundtrip_model vload hts false legacy0 fmt' idx' g.
+Proof. exact vcf_format_index_irrelevant. Qed.
+Print Assumptions C07_vcf_format_index_irrelevant.
+
+Theorem C07_vcf_read_content :
+  forall (vload : vcall -> Z * Z * Z) (hts : htslib) (legacy0 : bool) (d d' : vdisk),
+  hts_iter_contract hts -> vd_file d = vd_file d' ->
+  vcf_read vload hts false legacy0 None d = vcf_read vload hts false legacy0 None d'.
+Proof. exact vcf_read_content. Qed.
+Print Assumptions C07_vcf_read_content.
+
+(* ... whereas a region is served only with an index *)
+Theorem C07_vcf_region_needs_index :
+  forall (vload : vcall -> Z * Z * Z) (hts : htslib) (legacy legacy0 : bool) (d : vdisk) (c : Z),
+  hts_region_contract hts -> is_indexed d = false ->
+  vcf_read vload hts legacy legacy0 (Some c) d = Err E_Assert.
+Proof. exact vcf_region_needs_index. Qed.
+Print Assumptions C07_vcf_region_needs_index.
+
+(* "an empty matrix round-trips to an empty matrix", shape by shape.
+   PGEN, no variants (n >= 0 samples): the samples come back with an array (n, 0, 3) *)
+Theorem C07_pgen_empty_roundtrip :
+  forall (paccept : Z -> batch -> bool) (pload : scall -> scall) (g : geno) (cw cr : option Z) (legacy : bool),
+  g_variants g = [] ->
+  pgen_roundtrip_model paccept pload legacy cw cr g = Ok (mkg (g_samples g) [] [] [lenZ (g_samples g); 0; 3])
+  /\ empty_rel g (mkg (g_samples g) [] [] [lenZ (g_samples g); 0; 3]).
+Proof. exact pgen_empty_roundtrip. Qed.
+Print Assumptions C07_pgen_empty_roundtrip.
+
+(* PGEN, variants without samples: refused with ValueError (the format cannot hold them) *)
+Theorem C07_pgen_nosamples_refused :
+  forall (paccept : Z -> batch -> bool) (g : geno) (cw : option Z),
+  g_samples g = [] -> g_variants g <> [] -> pgen_write paccept false cw g = Err E_Value.
+Proof. exact pgen_nosamples_refused. Qed.
+Print Assumptions C07_pgen_nosamples_refused.
+
+(* VCF/BCF, no samples or no variants (or neither): samples and variants come back, the
+   array has no entry; every format, with or without index *)
+Theorem C07_vcf_empty_roundtrip :
+  forall (vload : vcall -> Z * Z * Z) (hts : htslib) (g : geno) (fmt : vfmt) (idx : vidx),
+  hts_iter_contract hts -> lenZ (g_rows g) = lenZ (g_variants g) ->
+  g_samples g = [] \/ g_variants g = [] ->
+  vcf_roundtrip_model vload hts false false fmt idx g = Ok (mkg (g_samples g) (g_variants g) [] [0; 0; 0])
+  /\ empty_rel g (mkg (g_samples g) (g_variants g) [] [0; 0; 0]).
+Proof. exact vcf_empty_roundtrip. Qed.
+Print Assumptions C07_vcf_empty_roundtrip.
 
 Theorem C07_legacy_unindexed_refuted :
   geno_domb true g_one = true
-  /\ vcf_roundtrip_model vload_std true false g_one = mkg [0] [] [] [0; 0; 0]
-  /\ same_geno g_one (vcf_roundtrip_model vload_std true false g_one) = false
-  /\ same_geno g_one (vcf_roundtrip_model vload_std true true g_one) = true
-  /\ same_geno g_one (vcf_roundtrip_model vload_std false false g_one) = true.
+  /\ vcf_roundtrip_model vload_std hts_std true false F_vcf I_none g_one = Ok (mkg [0] [] [] [0; 0; 0])
+  /\ (forall g', vcf_roundtrip_model vload_std hts_std true false F_bcf I_none g_one = Ok g' -> same_geno g_one g' = false)
+  /\ (exists g', vcf_roundtrip_model vload_std hts_std true false F_vcfgz I_tbi g_one = Ok g' /\ same_geno g_one g' = true)
+  /\ (exists g', vcf_roundtrip_model vload_std hts_std false false F_vcf I_none g_one = Ok g' /\ same_geno g_one g' = true).
 Proof. exact legacy_unindexed_refuted. Qed.
 Print Assumptions C07_legacy_unindexed_refuted.
 
-(* the boolean checkers evaluated on the implementation's output mean what the
-   property says *)
+Theorem C07_legacy_nosamples_refuted :
+  geno_domb0 true g_nosamples = true
+  /\ pgen_write paccept_std true None g_nosamples = Err E_Crash
+  /\ pgen_write paccept_std false None g_nosamples = Err E_Value
+  /\ vcf_roundtrip_model vload_std hts_std false true F_vcf I_none g_nosamples = Err E_Attribute
+  /\ vcf_roundtrip_model vload_std hts_std false false F_vcf I_none g_nosamples
+     = Ok (mkg [] [mkvar 0 0 28 [0; 1] 1] [] [0; 0; 0]).
+Proof. exact legacy_nosamples_refuted. Qed.
+Print Assumptions C07_legacy_nosamples_refuted.
+
+(* ---- the names as text: samples, variant IDs, chromosomes, positions, alleles --------- *)
+
+Theorem C07_split_join :
+  forall (sep : Z) (toks : list str),
+  toks <> [] -> forallb (nosep sep) toks = true -> split sep (join sep toks) = toks.
+Proof. exact split_join. Qed.
+Print Assumptions C07_split_join.
+
+Theorem C07_undec_dec : forall n : Z, 0 <= n -> undec (dec n) = Some n.
+Proof. exact undec_dec. Qed.
+Print Assumptions C07_undec_dec.
+
+(* write_samples then read_samples give back every list of sample names: any number (none
+   included), any length, any characters but tab and the line terminators - digits only,
+   "#" inside or in front, a sample called IID or #IID, ... *)
+Theorem C07_psam_roundtrip :
+  forall samples : list str,
+  forallb token_ok samples = true -> psam_read false (psam_text samples) = Ok samples.
+Proof. exact psam_roundtrip. Qed.
+Print Assumptions C07_psam_roundtrip.
+
+(* the reader of the pinned tree (csv's default dialect) needed one more hypothesis: no name
+   begins with a double quote *)
+Theorem C07_psam_roundtrip_legacy :
+  forall samples : list str,
+  forallb token_ok samples = true -> existsb (first_char_is c_quote) samples = false ->
+  psam_read true (psam_text samples) = Ok samples.
+Proof. exact psam_roundtrip_legacy. Qed.
+Print Assumptions C07_psam_roundtrip_legacy.
+
+(* the columns read_variants picks from the rows of the .pvar give back every variant: ID
+   (up to 50 characters), contig (up to 10), position (below 2^32), the allele list (two or
+   more alleles without a comma) *)
+Theorem C07_pvar_rows_roundtrip :
+  forall (meta : list (list str)) (vs : list (tvariant * list str)),
+  forallb meta_row meta = true -> forallb tvariant_ok (map fst vs) = true ->
+  pvar_read_rows (pvar_rows meta vs) = Ok (map fst vs).
+Proof. exact pvar_rows_roundtrip. Qed.
+Print Assumptions C07_pvar_rows_roundtrip.
+
+Theorem C07_pvar_roundtrip :
+  forall (meta : list (list str)) (vs : list (tvariant * list str)),
+  forallb meta_row meta = true -> forallb (forallb token_ok) meta = true ->
+  forallb tvariant_ok (map fst vs) = true -> forallb (forallb token_ok) (map snd vs) = true ->
+  pvar_read false (rows_text (pvar_rows meta vs)) = Ok (map fst vs).
+Proof. exact pvar_roundtrip. Qed.
+Print Assumptions C07_pvar_roundtrip.
+
+Theorem C07_gt_token_roundtrip :
+  forall c : C07_Files.vcall, vcall_ok c = true -> parse_gt (gt_token c) = Some c.
+Proof. exact parse_gt_token. Qed.
+Print Assumptions C07_gt_token_roundtrip.
+
+(* the lines of a .vcf / .vcf.gz: samples of the header, CHROM POS ID REF ALT and every GT *)
+Theorem C07_vcf_rows_roundtrip :
+  forall (meta tails : list (list str)) (f : tvfile),
+  forallb meta_row meta = true -> length tails = length (tf_recs f) ->
+  forallb (fun t => (length t =? 3)%nat) tails = true -> tvfile_ok f = true ->
+  vcf_parse_rows (vcf_rows meta tails f) = Ok f.
+Proof. exact vcf_rows_roundtrip. Qed.
+Print Assumptions C07_vcf_rows_roundtrip.
+
+Theorem C07_vcf_text_roundtrip :
+  forall (meta tails : list (list str)) (f : tvfile),
+  forallb meta_row meta = true -> forallb (forallb token_ok) meta = true ->
+  length tails = length (tf_recs f) -> forallb (fun t => (length t =? 3)%nat) tails = true ->
+  forallb (forallb token_ok) tails = true -> tvfile_ok f = true ->
+  vcf_parse (rows_text (vcf_rows meta tails f)) = Ok f.
+Proof. exact vcf_text_roundtrip. Qed.
+Print Assumptions C07_vcf_text_roundtrip.
+
+Theorem C07_cut_variant_id : forall v : tvariant, tvariant_ok v = true -> cut_variant v = v.
+Proof. exact cut_variant_id. Qed.
+Print Assumptions C07_cut_variant_id.
+
+Theorem C07_text_hypotheses_satisfiable :
+  forallb token_ok [[49; 50; 51]; [95]; [97; 46; 98]; [97; 35; 98]; s_IID; s_hIID; [34; 113]] = true
+  /\ tvariant_ok (mktv [114; 115; 49; 59; 120] [99; 104; 114; 49] 2147483646 [[65]; [65; 67]; [42]]) = true
+  /\ vcall_ok (Some 2, None, false) = true.
+Proof. exact text_hypotheses_satisfiable. Qed.
+Print Assumptions C07_text_hypotheses_satisfiable.
+
+(* ---- the boolean checkers evaluated on the implementation's output mean what the
+   property says ------------------------------------------------------------------------- *)
+
 Theorem C07_same_geno_spec :
   forall g g', same_geno g g' = true <-> rt_rel g g'.
 Proof. exact same_geno_spec. Qed.
 Print Assumptions C07_same_geno_spec.
 
+Theorem C07_empty_back_spec :
+  forall g g', empty_back g g' = true <-> empty_rel g g'.
+Proof. exact empty_back_spec. Qed.
+Print Assumptions C07_empty_back_spec.
+
 Theorem C07_holds_pgen_sound :
   forall k, holds_pgen k = true ->
-  geno_domb (pc_strict_half k) (pc_g k) = true -> chunk_dom (pc_cw k) -> chunk_dom (pc_cr k) ->
+  geno_domb false (pc_g k) = true -> chunk_dom (pc_cw k) -> chunk_dom (pc_cr k) ->
   pc_wpre k = false -> pc_rpre k = false ->
-  exists g', pc_back k = Ok g' /\ rt_rel (pc_g k) g'.
+  exists g', pc_back k = Ok g'
+    /\ (g_variants (pc_g k) <> [] -> rt_rel (pc_g k) g')
+    /\ (g_variants (pc_g k) = [] -> empty_rel (pc_g k) g').
 Proof. exact holds_pgen_sound. Qed.
 Print Assumptions C07_holds_pgen_sound.
 
+Theorem C07_holds_pgen_sound_nosamples :
+  forall k, holds_pgen k = true -> geno_domb0 true (pc_g k) = true -> chunk_dom (pc_cw k) -> chunk_dom (pc_cr k) ->
+  g_samples (pc_g k) = [] -> g_variants (pc_g k) <> [] ->
+  match pc_back k with
+  | Ok g' => empty_rel (pc_g k) g'
+  | Err e => e <> E_Crash /\ e <> 12
+  end.
+Proof. exact holds_pgen_sound_nosamples. Qed.
+Print Assumptions C07_holds_pgen_sound_nosamples.
+
 Theorem C07_holds_vcf_sound :
-  forall k, holds_vcf k = true -> geno_domb true (vc_g k) = true ->
+  forall k, holds_vcf k = true -> geno_domb0 true (vc_g k) = true ->
   vc_wpre k = false -> vc_rpre k = false ->
-  exists g', vc_back k = Ok g' /\ rt_rel (vc_g k) g'.
+  exists g', vc_back k = Ok g'
+    /\ (g_samples (vc_g k) <> [] -> g_variants (vc_g k) <> [] -> rt_rel (vc_g k) g')
+    /\ (g_samples (vc_g k) = [] \/ g_variants (vc_g k) = [] -> empty_rel (vc_g k) g').
 Proof. exact holds_vcf_sound. Qed.
 Print Assumptions C07_holds_vcf_sound.
+
+Theorem C07_holds_text_sound :
+  forall k, holds_text k = true ->
+  forallb token_ok (tf_samples (tc_file k)) = true ->
+  forallb (fun r => tvariant_ok (fst r)) (tf_recs (tc_file k)) = true ->
+  exists b, tc_back k = Ok b /\ tb_samples b = tf_samples (tc_file k)
+            /\ tb_variants b = map fst (tf_recs (tc_file k)).
+Proof. exact holds_text_sound. Qed.
+Print Assumptions C07_holds_text_sound.
+
+(* the check of pgenlib's contract on the calls read directly from the file is implied by
+   the contract *)
+Theorem C07_pload_okb_spec :
+  forall (pload : scall -> scall) (s : scall), pload_contract pload ->
+  (let '(x, y, _) := s in (x = -9 /\ y = -9) \/ (0 <= x /\ 0 <= y)) -> pload_okb s (pload s) = true.
+Proof. exact pload_okb_spec. Qed.
+Print Assumptions C07_pload_okb_spec.
 
 (* the contracts and domains are satisfiable (by the library behaviour the
    correspondence run observes) *)
 Theorem C07_hypotheses_satisfiable :
-  pload_contract pload_std /\ vload_contract vload_std
+  paccept_complete paccept_std /\ paccept_sound paccept_std
+  /\ pload_contract pload_std /\ vload_contract vload_std
+  /\ hts_iter_contract hts_std /\ hts_region_contract hts_std
   /\ geno_domb false g_unobserved_allele = true /\ geno_domb true g_one = true
   /\ chunk_dom None /\ chunk_dom (Some 1).
 Proof. exact roundtrip_hypotheses_satisfiable. Qed.
